@@ -1,3 +1,4 @@
+import XPathV.Lemmas.KeyInj
 import XPathV.Generated.ExtraFacts
 import XPathV.Model.Api
 import XPathV.Lemmas.Facts
@@ -126,5 +127,21 @@ theorem identity_key_recipe_ok :
     Generated.hashKeyCases = ["AttributeNode,TextNode,CommentNode: writeKeyPart(&sb,n.Prefix()); writeKeyPart(&sb,n.LocalName()); writeKeyPart(&sb,n.Value())",
       "ElementNode: writeKeyPart(&sb,n.Prefix()); writeKeyPart(&sb,n.LocalName())"] ∧
     Generated.writeKeyPartSrc = "{sb.WriteString(strconv.Itoa(len(s)))sb.WriteByte(':')sb.WriteString(s)}" := ⟨rfl, rfl⟩
+
+/-! ## The identity key identifies nodes -/
+
+/-- **key injectivity**: on a well-formed document whose elements have no two attributes with the same
+(prefix, name) and no attribute with an empty name, two valid nodes with the same structured key
+(name parts + sibling-index path, exactly what `getHashCode` renders with length prefixes) are the
+same node.  The pinned key (no length prefixes, no prefix part) failed this. -/
+theorem key_injective {d : Doc} (wf : WF d) (hd : AttrNamesDistinct d) (hne : AttrNamesNonEmpty d)
+    (r₁ r₂ : Ref) (h₁ : validRef d r₁ = true) (h₂ : validRef d r₂ = true)
+    (h : keyStruct d r₁ = keyStruct d r₂) : r₁ = r₂ :=
+  keyStruct_inj wf hd hne r₁ r₂ h₁ h₂ h
+
+/-- the rendered index path of the model is a function of the structured key alone -/
+theorem rendered_key_from_struct (d : Doc) (r : Ref) :
+    indexChain d r = (indexPath d r).foldl (fun s n => s ++ "-" ++ toString n) "" :=
+  indexChain_eq d r
 
 end XPathV.Theorems.C11
